@@ -678,9 +678,12 @@ class Progress(JupyterMixin, RenderHook):
             if not self._started:
                 return
             self._started = False
+            # taken over under the lock: a concurrent start() may install a new thread
+            refresh_thread = self._refresh_thread
+            self._refresh_thread = None
             try:
-                if self.auto_refresh and self._refresh_thread is not None:
-                    self._refresh_thread.stop()
+                if refresh_thread is not None:
+                    refresh_thread.stop()
                 self.refresh()
                 # flush text pending in the redirected streams while it can still go above the frame
                 self._disable_redirect_io()
@@ -690,9 +693,8 @@ class Progress(JupyterMixin, RenderHook):
                 self.console.show_cursor(True)
                 self._disable_redirect_io()
                 self.console.pop_render_hook()
-        if self._refresh_thread is not None:
-            self._refresh_thread.join()
-            self._refresh_thread = None
+        if refresh_thread is not None:
+            refresh_thread.join()
         if self.transient:
             self.console.control(self._live_render.restore_cursor())
         if self.ipy_widget is not None and self.transient:  # pragma: no cover
